@@ -76,6 +76,7 @@ fn plan_j(p: &Plan) -> J {
     match p {
         Plan::Fresh => J::s("fresh"),
         Plan::Repeat => J::s("repeat"),
+        Plan::RepeatN(n) => J::obj().set("repeat_times", J::Int(*n as i128)),
         Plan::Err => J::s("err"),
         Plan::Panic => J::s("panic"),
         Plan::Fixed(b) => J::obj().set("bytes", J::Str(hex(b))),
@@ -94,7 +95,9 @@ fn plan_from(j: &J) -> Result<Plan, String> {
             o => Err(format!("bad plan {}", o)),
         },
         J::Obj(_) => {
-            if let Some(b) = j.get("bytes") {
+            if let Some(n) = j.get("repeat_times") {
+                Ok(Plan::RepeatN(n.int().ok_or("repeat_times")? as u32))
+            } else if let Some(b) = j.get("bytes") {
                 Ok(Plan::Fixed(unhex(b.str().ok_or("bytes")?)?))
             } else if let Some(n) = j.get("fault_when_delivered_bytes_reach") {
                 Ok(Plan::FaultAtByte(n.int().ok_or("fault_when_delivered_bytes_reach")? as u64, Box::new(plan_from(j.get("fault").ok_or("fault")?)?)))
